@@ -79,7 +79,9 @@ def quantiles_contract(registry):
         Bt = B.t if isinstance(B, V) else z3.IntVal(B)
         interp.ctx.oblige("_get_quantiles.pre.alpha_open", z3.And(a.t > 0, a.t < 1), kind="callee-pre")
         interp.ctx.oblige("_get_quantiles.pre.B_ge_2", Bt >= 2, kind="callee-pre")
-        key = a.t.get_id()
+        from pyvc.values import tid
+
+        key = tid(a.t)
         if key not in registry:
             lq, uq = z3.Real(f"lower_q!{len(registry)}"), z3.Real(f"upper_q!{len(registry)}")
             interp.ctx.assume(z3.And(0 <= lq, lq <= uq, uq * z3.ToReal(Bt) <= z3.ToReal(Bt) - 1, uq <= 1))
